@@ -1481,6 +1481,8 @@ def _fixStringValue(s, p):
 
         if ch == '"':
             rv += '"'
+        elif ch == "'":
+            rv += "'"
         elif ch == 'n':
             rv += '\n'
         elif ch == 't':
